@@ -184,6 +184,46 @@ pub fn run_desc(out: &mut Out, seed: u64, n: u64) {
                 bytes.iter().all(|x| *x == 0)
             } as i64),
     );
+    // cross-structure: an IDT gate with stack index i makes the CPU load IST(i+1), which is the
+    // 8 bytes at TSS offset 0x24 + 8*i = interrupt_stack_table[i]; privilege stack n at 4 + 8*n
+    {
+        let mut t = TaskStateSegment::new();
+        for i in 0..7 {
+            t.interrupt_stack_table[i] = VirtAddr::new(0x1111_0000_0000 + 0x1000 * i as u64);
+        }
+        for i in 0..3 {
+            t.privilege_stack_table[i] = VirtAddr::new(0x2222_0000_0000 + 0x1000 * i as u64);
+        }
+        let b = &t as *const _ as *const u8;
+        let rd = |off: usize| unsafe { core::ptr::read_unaligned(b.add(off) as *const u64) };
+        let ist: Vec<u64> = (0..7).map(|i| rd(0x24 + 8 * i)).collect();
+        let pst: Vec<u64> = (0..3).map(|i| rd(4 + 8 * i)).collect();
+        out.emit(Ev::new("tss_stacks").words("ist", &ist).words("pst", &pst));
+    }
+    // cross-structure: GDT + TSS descriptor + ltr
+    {
+        let mut g: GlobalDescriptorTable<8> = GlobalDescriptorTable::empty();
+        let cs = catch(|| g.append(Descriptor::kernel_code_segment()));
+        let ds = catch(|| g.append(Descriptor::kernel_data_segment()));
+        let ucs = catch(|| g.append(Descriptor::user_code_segment()));
+        let ts = catch(|| g.append(Descriptor::tss_segment(&TSS)));
+        let e: Vec<u64> = g.entries().iter().map(|e| e.raw()).collect();
+        cpu::drain();
+        if let Some(sel) = ts {
+            let _ = catch(|| unsafe { x86_64::instructions::tables::load_tss(sel) });
+        }
+        let ins = cpu::drain();
+        out.emit(
+            Ev::new("gdt_tss")
+                .words("entries", &e)
+                .n("cs", cs.map(|s| s.0 as i64).unwrap_or(-1))
+                .n("ds", ds.map(|s| s.0 as i64).unwrap_or(-1))
+                .n("ucs", ucs.map(|s| s.0 as i64).unwrap_or(-1))
+                .n("ts", ts.map(|s| s.0 as i64).unwrap_or(-1))
+                .w("tss", &TSS as *const _ as u64)
+                .raw("instrs", &cpu::instrs_json(&ins)),
+        );
+    }
     let p = DescriptorTablePointer { limit: 0xabcd, base: VirtAddr::new(0x1122_3344_5566) };
     let pb = &p as *const _ as u64;
     let bytes: Vec<i64> = (0..10).map(|i| unsafe { *((pb + i) as *const u8) } as i64).collect();
